@@ -52,6 +52,13 @@ def run(ctx):
     N[0] = ctx.budget(6, 24)
     ctx.rule = ("generated programs x seeded grounding histories (shared target, ground_all, shared prepared database); "
                 "non-trivial = at least one query instance and more than one world")
-    return cfgprop.run(ctx, MODULE, THEOREMS, variants, nq=50, nt=700, level="other",
-                       explanation="Histories are explored, not proved; every history's answers are compared with the Lean "
-                                   "specification value.")
+    # ground programs without recursion: the engine with its table across ground() calls is MODELLED (exact
+    # correspondence of ground program and table) and history independence is a theorem (C08_ground_history_independent)
+    import ground_util
+    gerr = ground_util.guarded(ctx, "history", 250, 6000)
+    rc = cfgprop.run(ctx, MODULE, THEOREMS, variants, nq=50, nt=700, level="other",
+                     explanation="Histories are explored, not proved, on general programs; every history's answers are compared "
+                                 "with the Lean specification value. On ground programs without recursion the engine and its "
+                                 "table are modelled (lean/ProbLogModel/GroundAcyclic.lean, exact correspondence) and history "
+                                 "independence is proved (ProbLogProofs.C01Ground).")
+    return ground_util.after(rc, gerr)
